@@ -1119,6 +1119,12 @@ fn failing_cases(rng: &mut Rng, base: &Value, res: &Value, out: &mut Vec<Value>,
         let mut sink = { let m = rng.below(5); gen_sched(rng, m) };
         sink["failAt"] = json!(f);
         sink["code"] = json!(*rng.pick(&[5i64, 1, -1, 28, 0, 32, 11]));
+        // what the failing call leaves in *bytes_written (nothing, or a short count as write(2) would), and
+        // whether the failure repeats
+        if sink["code"] != 0 {
+            sink["failPartial"] = json!(rng.below(5));
+            sink["failOnce"] = json!(rng.chance(1, 2));
+        }
         out.push(mk("failcb", sink, false));
     }
     // EINTR (4) once or a few times: `ErrorKind::Interrupted` is std::io's retry convention, so this is
